@@ -1,7 +1,7 @@
 """C02 - Log: structural clauses (mask partitions, guarded divisions, layout typing, Exp/Log pairing, dispatch)."""
 from .lie_common import *   # noqa
 
-LOG_TARGETS = [(OP, 'SO3_Log.forward'), (OP, 'so3_Jl_inv')]
+LOG_TARGETS = [(OP, 'SO3_Log.forward'), (OP, 'so3_Jl_inv'), (OP, 'rxso3_Ws')]
 # documented exception of the guarded-division rule: under idx3 (|v| <= eps) a unit quaternion has |w| ~ 1
 GD_EXCEPTIONS = {('SO3_Log.forward', 'Slice(Constant(3))'): ('|v|<=eps on a unit quaternion implies |w|~1, division by w is safe', "'norm'")}
 
@@ -73,7 +73,7 @@ def _coupling(v):
 
 
 def rules(repo, tier):
-    out = rule_masks(repo, 'C02.MP', 'C02.GD', LOG_TARGETS, floor=2, exceptions=GD_EXCEPTIONS)
+    out = rule_masks(repo, 'C02.MP', 'C02.GD', LOG_TARGETS, floor=5, exceptions=GD_EXCEPTIONS)
     out.append(rule_layout(repo, 'C02.LT', [
         ('SO3_Log', ['SO3'], 'so3'), ('SE3_Log', ['SE3'], 'se3'), ('RxSO3_Log', ['RxSO3'], 'rxso3'), ('Sim3_Log', ['Sim3'], 'sim3')], floor=4))
     out.append(rule_pair(repo))
